@@ -1,70 +1,3 @@
-// ===== trusted environment T-node / T-env / T-cow (shared prelude; every item here is an ASSUMPTION) =====
-// Ghost views.  A GNode is the mathematical identity of a syntax node; a GEnv the content of a
-// MetaVarEnv.  Contracts are stated over these views so that they do not depend on the encoding D.
-pub ghost struct GNode {
-    pub id: int,            // tree-sitter node id (identity inside one tree)
-    pub kind: usize,        // kind_id()
-    pub named: bool,        // is_named()
-    pub start: nat,         // range().start
-    pub end: nat,           // range().end
-    pub comment: bool,      // kind name contains "comment"
-}
-/// the source text of a node
-pub uninterp spec fn g_text(n: GNode) -> Seq<char>;
-
-pub ghost struct GEnv {
-    pub single: Map<Seq<char>, GNode>,
-    pub multi: Map<Seq<char>, Seq<GNode>>,
-    pub transformed: Map<Seq<char>, Seq<u8>>,
-}
-
-pub trait Language: Sized {}
-pub trait Content: Sized { type Underlying: Clone + PartialEq; }
-pub trait Doc: Sized {
-    type Source: Content;
-    type Lang: Language;
-}
-
-#[verifier::external_body]
-#[verifier::reject_recursive_types(D)]
-pub struct Node<'r, D: Doc> { _p: PhantomData<&'r D> }
-
-#[verifier::external_body]
-#[verifier::reject_recursive_types(D)]
-pub struct MetaVarEnv<'t, D: Doc> { _p: PhantomData<&'t D> }
-
-impl<'r, D: Doc> View for Node<'r, D> {
-    type V = GNode;
-    uninterp spec fn view(&self) -> GNode;
-}
-impl<'t, D: Doc> View for MetaVarEnv<'t, D> {
-    type V = GEnv;
-    uninterp spec fn view(&self) -> GEnv;
-}
-
-impl<'r, D: Doc> Clone for Node<'r, D> {
-    #[verifier::external_body]
-    fn clone(&self) -> (r: Self) ensures r@ == self@ { unimplemented!() }
-}
-impl<'t, D: Doc> Clone for MetaVarEnv<'t, D> {
-    #[verifier::external_body]
-    fn clone(&self) -> (r: Self) ensures r@ == self@ { unimplemented!() }
-}
-
-impl<'r, D: Doc> Node<'r, D> {
-    #[verifier::external_body]
-    pub fn kind_id(&self) -> (k: u16) ensures k as usize == self@.kind { unimplemented!() }
-    #[verifier::external_body]
-    pub fn is_named(&self) -> (b: bool) ensures b == self@.named { unimplemented!() }
-    #[verifier::external_body]
-    pub fn node_id(&self) -> (k: usize) ensures k as int == self@.id { unimplemented!() }
-    #[verifier::external_body]
-    pub fn range(&self) -> (r: std::ops::Range<usize>) ensures r.start == self@.start, r.end == self@.end, r.start <= r.end { unimplemented!() }
-}
-
-pub open spec fn cow_env<'a, 't, D: Doc>(c: Cow<'a, MetaVarEnv<'t, D>>) -> GEnv {
-    match c {
-        Cow::Borrowed(b) => b@,
-        Cow::Owned(o) => o@,
-    }
-}
+/*@include prelude/node.rs@*/
+/*@include prelude/envstub.rs@*/
+/*@include prelude/cowenv.rs@*/
